@@ -25,13 +25,13 @@ func shortHash(s string) string {
 type Expr interface{ exprString() string }
 
 type (
-	EInt    struct{ V string }
-	EReal   struct{ V string }
-	EStr    struct{ V string }
-	EBool   struct{ V bool }
-	ENil    struct{}
-	EIdent  struct{ Name string }
-	EUnary  struct {
+	EInt   struct{ V string }
+	EReal  struct{ V string }
+	EStr   struct{ V string }
+	EBool  struct{ V bool }
+	ENil   struct{}
+	EIdent struct{ Name string }
+	EUnary struct {
 		Op string
 		X  Expr
 	}
